@@ -15,10 +15,10 @@ CHECKS = {
                 text="Same scopes as C01 through InferenceManager('system-z'); oracle is the Z-rank comparison by brute force; partition depths 1..3 are all reached (counted in the evidence).",
                 note="Trusted: vf/ref.py. Nothing is claimed outside the scopes."),
     "C03": dict(cat="exploration", tech=E_IN, ref="DESIGN.md 4/C03",
-                text="Same scopes, both MaxSAT back-ends (rc2, z3), oracle is the preferred-structure definition of System W by brute force; includes constants Top/Bottom, compound formulas, incomparable falsification sets (counted). Also pairs (thorough: triples) over an alphabet with three-literal conjunctive consequents (l1,l2,l3|Top), where MaxSAT clause cost and the number of falsified conditionals come apart.",
+                text="Same scopes, both MaxSAT back-ends (rc2, z3), oracle is the preferred-structure definition of System W by brute force; includes constants Top/Bottom, compound formulas, incomparable falsification sets (counted). Also pairs (thorough: three members per structure) over an alphabet with three-literal conjunctive consequents (l1,l2,l3|Top), where MaxSAT clause cost and the number of falsified conditionals come apart.",
                 note="Trusted: vf/ref.py. Nothing is claimed outside the scopes."),
     "C04": dict(cat="exploration", tech=E_IN, ref="DESIGN.md 4/C04",
-                text="Same scopes, both back-ends, oracle is the comparison of least per-layer falsification-count vectors by brute force; the type-level query family reaches ties between several minimum sets with differing continuations. Also pairs (thorough: triples) over an alphabet with three-literal conjunctive consequents (l1,l2,l3|Top), where MaxSAT clause cost and the number of falsified conditionals come apart.",
+                text="Same scopes, both back-ends, oracle is the comparison of least per-layer falsification-count vectors by brute force; the type-level query family reaches ties between several minimum sets with differing continuations. Also pairs (thorough: three members per structure) over an alphabet with three-literal conjunctive consequents (l1,l2,l3|Top), where MaxSAT clause cost and the number of falsified conditionals come apart.",
                 note="Trusted: vf/ref.py. Nothing is claimed outside the scopes."),
     "C05": dict(cat="exploration", tech=E_IN, ref="DESIGN.md 4/C05",
                 text="Scopes with n<=3 conditionals (quick) so that the impact box {0..2^(n-1)}^n is enumerated completely; oracle is skeptical inference over every c-representation in the box.",
